@@ -75,7 +75,8 @@ func registerMisc(vm *VM) {
 		re := (*p).(*Native).V.(*regexp.Regexp)
 		s, ok := a[1].(string)
 		if !ok {
-			vmErr("MatchString on symbolic string")
+			m := vm.symRegexSubmatch(re, a[1]).(Slice)
+			return m != nil
 		}
 		return re.MatchString(s)
 	}
